@@ -238,6 +238,21 @@ func genC20(g *gen) {
 				g.emit(steps...)
 			}
 		}
+		// long contiguous operands (block / unrolled paths of the vector kernels start at some length): every mode of
+		// Add and both forms of FMA on 64-, 100- and 8x16-element tensors; operands are dumped afterwards
+		for _, sh := range [][]int{{64}, {100}, {8, 16}} {
+			for _, edt := range []string{"f64", "f32"} {
+				if (eng == "f64" && edt != "f64") || (eng == "f32" && edt != "f32") {
+					continue
+				}
+				mkc := func() string { return fmt.Sprintf("enew %s %s C %s", edt, ints(sh), eng) }
+				for _, opts := range []string{"", " unsafe", " reuse=$2", " incr=$2"} {
+					g.emit("vset=2", mkc(), mkc(), mkc(), "eadd fn $0 $1"+opts, "dump $3", "dump $0", "dump $1", "dump $2")
+				}
+				g.emit("vset=2", mkc(), mkc(), mkc(), "fma $0 $1 $2", "dump $3", "dump $0", "dump $1", "dump $2")
+				g.emit("vset=2", mkc(), mkc(), "fma $0 #k3 $1", "dump $2", "dump $0", "dump $1")
+			}
+		}
 		// mismatched shapes must be refused by every engine
 		g.emit("vset=2", fmt.Sprintf("enew f64 2,3 C %s", eng), fmt.Sprintf("enew f64 3,2 C %s", eng), "eadd fn $0 $1", "dump $0", "dump $1")
 		g.emit("vset=2", fmt.Sprintf("enew f64 6 C %s", eng), fmt.Sprintf("enew f64 2,3 C %s", eng), "eadd meth $0 $1", "dump $0", "dump $1")
